@@ -158,6 +158,9 @@ impl<T: AsRef<[u8]>> Packet<T> {
         if self.cid_field() == 1 {
             let data = self.buffer.as_ref();
             Some(data[2] >> 4)
+        } else if self.sac_field() == 1 {
+            // Without the extension octet, context 0 is used (RFC 6282 3.1.1).
+            Some(0)
         } else {
             None
         }
@@ -168,6 +171,9 @@ impl<T: AsRef<[u8]>> Packet<T> {
         if self.cid_field() == 1 {
             let data = self.buffer.as_ref();
             Some(data[2] & 0x0f)
+        } else if self.dac_field() == 1 {
+            // Without the extension octet, context 0 is used (RFC 6282 3.1.1).
+            Some(0)
         } else {
             None
         }
